@@ -81,6 +81,13 @@ pub fn run(case: &Value, ctx: &Ctx) -> Outcome {
                 let r = cli::sfs(ctx, &args, Some(input));
                 let got = if r.ok() { cli::parse_text(&r.stdout) } else { Err(format!("exit {:?}: {}", r.code, r.stderr)) };
                 cmp(&mut out, what, got, &sym.shape, &want, 0.0, json!({"args": args}));
+                // the same marginalization delivered with -o onto a file holding an older, LONGER result (e.g. the less
+                // marginalized spectrum of a previous step): the file must hold exactly what stdout got
+                if what == "cli-remove-text" && r.ok() {
+                    let (f, left) = cli::sfs_onto_stale_file(ctx, &args, input, "marg");
+                    out.check(f.ok() && !left && f.stdout == r.stdout, || "marginalize/cli/stale-destination".into(),
+                        || json!({"args": args, "code": f.code, "stderr": f.stderr, "file_len": f.stdout.len(), "stdout_len": r.stdout.len(), "also_on_stdout": left}));
+                }
             }
             // naming a kept axis twice keeps it once
             let mut keep = keep;
